@@ -1,5 +1,6 @@
 SPECIFICATION Spec
 CONSTANTS MaxEdit = 2  MaxInv = 3  MaxKill = 1  MaxFail = 1  GenDepth = 0
+CONSTANT Flags = {"plain"}
 CONSTANT Weak = {}
 VIEW view
 INVARIANT IncrementalEqClean
